@@ -44,7 +44,7 @@ func RaceStep(tier string, seed int64) ([]string, map[string]any) {
 		}
 		if strings.Contains(b, "russellhaering/gosaml2") || strings.Contains(b, "/repo/") {
 			if len(viol) < 5 {
-				p := filepath.Join(VerifDir, "replays", fmt.Sprintf("C17-race-%d.txt", len(viol)+1))
+				p := filepath.Join(VerifDir, "replays", fmt.Sprintf("race-report-%d.txt", len(viol)+1))
 				os.MkdirAll(filepath.Dir(p), 0o755)
 				os.WriteFile(p, []byte("go build -race -tags verif ./cmd/verifrace && verifrace "+rounds+" "+stress+"\n"+b), 0o644)
 				viol = append(viol, p)
@@ -60,7 +60,7 @@ func RaceStep(tier string, seed int64) ([]string, map[string]any) {
 	if ee, ok := err.(*exec.ExitError); ok && len(viol) == 0 {
 		if ee.ExitCode() == 3 {
 			wrong = true
-			p := filepath.Join(VerifDir, "replays", "C17-race-wrong-results.txt")
+			p := filepath.Join(VerifDir, "replays", "race-wrong-results.txt")
 			os.WriteFile(p, []byte(text), 0o644)
 			viol = append(viol, p)
 		} else if ee.ExitCode() != 66 { // 66 = race detector's exit code
